@@ -544,6 +544,9 @@ type Endpoint struct {
 	WriteStall func() time.Duration
 	// WriteErr, when set, may refuse a transmission to dst with an error.
 	WriteErr func(dst *net.UDPAddr) error
+	// DeadlineStall, when set, is asked on every deadline change how long the calling goroutine is held
+	// inside the call (a descheduled thread / stalled node: the deadline itself is set at once).
+	DeadlineStall func() time.Duration
 	// CloseErr, when set, is what the first Close returns (the endpoint is closed all the same).
 	CloseErr error
 }
@@ -713,6 +716,13 @@ func (ep *Endpoint) SetReadDeadline(t time.Time) error {
 	case <-ep.closed:
 		return &net.OpError{Op: "set", Net: "udp", Err: net.ErrClosed}
 	default:
+	}
+	if ep.DeadlineStall != nil {
+		defer func() {
+			if dly := ep.DeadlineStall(); dly > 0 {
+				time.Sleep(dly)
+			}
+		}()
 	}
 	ep.dmu.Lock()
 	defer ep.dmu.Unlock()
